@@ -4,5 +4,438 @@ import Panoptica.Model.Overlap
 import Panoptica.Model.Metrics
 import Panoptica.Spec.Reach
 import Panoptica.Spec.Transforms
+import Panoptica.Spec.Masks
 namespace Panoptica
+open Panoptica.Spec
+
+/-! ### counts over zipped label pairs -/
+
+theorem ovCount_eq_zip (pred ref : Flat) (r p : Lab) :
+    ovCount pred ref r p = ((pred.zip ref).filter (fun z => z.1 == p && z.2 == r)).length := by
+  induction pred generalizing ref with
+  | nil => simp [ovCount]
+  | cons x xs ih =>
+    cases ref with
+    | nil => simp [ovCount]
+    | cons y ys =>
+      simp only [ovCount, List.zip_cons_cons, List.filter_cons, ih ys]
+      split <;> simp <;> omega
+
+theorem cnt_eq_zip_fst (pred ref : Flat) (hlen : pred.length = ref.length) (l : Lab) :
+    cnt pred l = ((pred.zip ref).filter (fun z => z.1 == l)).length := by
+  induction pred generalizing ref with
+  | nil => simp [cnt]
+  | cons x xs ih =>
+    cases ref with
+    | nil => simp at hlen
+    | cons y ys =>
+      have ih' := ih ys (by simpa using hlen)
+      simp only [cnt] at ih' ⊢
+      simp only [List.zip_cons_cons, List.filter_cons]
+      by_cases h : x = l <;> simp [h, ih']
+
+theorem cnt_eq_zip_snd (pred ref : Flat) (hlen : pred.length = ref.length) (l : Lab) :
+    cnt ref l = ((pred.zip ref).filter (fun z => z.2 == l)).length := by
+  induction pred generalizing ref with
+  | nil => cases ref with
+    | nil => simp [cnt]
+    | cons y ys => simp at hlen
+  | cons x xs ih =>
+    cases ref with
+    | nil => simp at hlen
+    | cons y ys =>
+      have ih' := ih ys (by simpa using hlen)
+      simp only [cnt] at ih' ⊢
+      simp only [List.zip_cons_cons, List.filter_cons]
+      by_cases h : y = l <;> simp [h, ih']
+
+/-! ### masks of selected instances -/
+
+theorem card_selRef (a : Flat) (r : Lab) : card (selRef a r) = cnt a r := by
+  induction a with
+  | nil => simp [card, selRef, cnt]
+  | cons x xs ih =>
+    simp only [card, selRef, cnt] at ih ⊢
+    simp only [List.map_cons, List.count_cons, List.filter_cons, ih]
+    by_cases h : x = r <;> simp [h]
+
+theorem card_selPred_single (a : Flat) (p : Lab) : card (selPred a [p]) = cnt a p := by
+  induction a with
+  | nil => simp [card, selPred, cnt]
+  | cons x xs ih =>
+    simp only [card, selPred, cnt] at ih ⊢
+    simp only [List.map_cons, List.count_cons, List.filter_cons, ih]
+    by_cases h : x = p <;> simp [h]
+
+theorem cardInter_sel (pred ref : Flat) (r p : Lab) :
+    cardInter (selRef ref r) (selPred pred [p]) = ovCount pred ref r p := by
+  induction pred generalizing ref with
+  | nil => cases ref <;> simp [cardInter, selRef, selPred, ovCount]
+  | cons x xs ih =>
+    cases ref with
+    | nil => simp [cardInter, selRef, selPred, ovCount]
+    | cons y ys =>
+      have ih' := ih ys
+      simp only [cardInter, selRef, selPred] at ih' ⊢
+      simp only [List.map_cons, List.zipWith_cons_cons, List.count_cons, ovCount, ih']
+      by_cases h : x = p <;> by_cases h' : y = r <;> simp [h, h'] <;> omega
+
+/-! ### reachability -/
+
+theorem reach_mem {α : Type} (adj : α → α → Bool) (V : List α) (a b : α) (h : Reach adj V a b) :
+    a ∈ V ∧ b ∈ V := by
+  induction h with
+  | refl ha => exact ⟨ha, ha⟩
+  | step _ hc _ ih => exact ⟨ih.1, hc⟩
+
+/-! ### adjacency -/
+
+theorem absDiffs_eq_zipWith (a b : Coord) :
+    absDiffs a b = List.zipWith (fun x y => (x - y).natAbs) a b := by
+  induction a generalizing b with
+  | nil => simp [absDiffs]
+  | cons x xs ih => cases b with
+    | nil => simp [absDiffs]
+    | cons y ys => simp [absDiffs, ih]
+
+theorem coord_ne_iff (a b : Coord) (h : a.length = b.length) :
+    a ≠ b ↔ ∃ i, i < a.length ∧ a.getD i 0 ≠ b.getD i 0 := by
+  constructor
+  · intro hne
+    apply Classical.byContradiction
+    intro hcon
+    apply hne
+    apply List.ext_getElem h
+    intro i h1 h2
+    apply Classical.byContradiction
+    intro hx
+    apply hcon
+    refine ⟨i, h1, ?_⟩
+    simpa [List.getD_eq_getElem?_getD, h1, h2] using hx
+  · rintro ⟨i, _, hi⟩ rfl
+    exact hi rfl
+
+theorem fullAdj_iff (a b : Coord) (h : a.length = b.length) :
+    fullAdj a b = true ↔ (∃ i, i < a.length ∧ a.getD i 0 ≠ b.getD i 0) ∧
+      ∀ i, i < a.length → (a.getD i 0 - b.getD i 0).natAbs ≤ 1 := by
+  rw [← coord_ne_iff a b h]
+  have hl : (a.length == b.length) = true := by simp [h]
+  simp only [fullAdj, hl, Bool.true_and, Bool.and_eq_true, bne_iff_ne, ne_eq,
+    List.all_eq_true, decide_eq_true_eq, absDiffs_eq_zipWith]
+  apply and_congr_right
+  intro _
+  constructor
+  · intro hall i hi
+    have hi' : i < b.length := h ▸ hi
+    apply hall
+    rw [List.mem_iff_getElem]
+    refine ⟨i, by simp only [List.length_zipWith]; omega, ?_⟩
+    simp [List.getD_eq_getElem?_getD, hi, hi']
+  · intro hall x hx
+    rw [List.mem_iff_getElem] at hx
+    obtain ⟨i, hi, rfl⟩ := hx
+    simp only [List.length_zipWith] at hi
+    have h1 : i < a.length := by omega
+    have h2 : i < b.length := by omega
+    have := hall i h1
+    simpa [List.getD_eq_getElem?_getD, h1, h2] using this
+
+/-- transport of full adjacency along a coordinate-wise map composed with an involutive
+    renumbering of the axes -/
+theorem fullAdj_transport (a b a' b' : Coord) (σ : Nat → Nat)
+    (h : a.length = b.length) (ha : a'.length = a.length) (hb : b'.length = a.length)
+    (hσ : ∀ l, l < a.length → σ l < a.length) (hσσ : ∀ l, l < a.length → σ (σ l) = l)
+    (hd : ∀ l, l < a.length →
+      (a'.getD l 0 - b'.getD l 0).natAbs = (a.getD (σ l) 0 - b.getD (σ l) 0).natAbs) :
+    fullAdj a' b' = fullAdj a b := by
+  rw [Bool.eq_iff_iff, fullAdj_iff a b h, fullAdj_iff a' b' (ha.trans hb.symm), ha]
+  constructor
+  · rintro ⟨⟨i, hi, hne⟩, hall⟩
+    refine ⟨⟨σ i, hσ i hi, ?_⟩, ?_⟩
+    · have := hd i hi; omega
+    · intro l hl
+      have := hd (σ l) (hσ l hl)
+      have h2 := hall (σ l) (hσ l hl)
+      rw [hσσ l hl] at this
+      omega
+  · rintro ⟨⟨i, hi, hne⟩, hall⟩
+    refine ⟨⟨σ i, hσ i hi, ?_⟩, ?_⟩
+    · have := hd (σ i) (hσ i hi)
+      rw [hσσ i hi] at this; omega
+    · intro l hl
+      have := hd l hl
+      have h2 := hall (σ l) (hσ l hl)
+      omega
+
+
+theorem translate_getD (t a : Coord) (h : a.length = t.length) (l : Nat) (hl : l < a.length) :
+    (translate t a).getD l 0 = t.getD l 0 + a.getD l 0 := by
+  have hl' : l < t.length := h ▸ hl
+  simp [translate, List.getD_eq_getElem?_getD, List.getElem?_zipWith, hl, hl']
+
+theorem flipAxis_getD (k : Nat) (m : Int) (a : Coord) (l : Nat) (hl : l < a.length) :
+    (flipAxis k m a).getD l 0 = if k = l then m - 1 - a.getD k 0 else a.getD l 0 := by
+  simp only [flipAxis, List.getD_eq_getElem?_getD, List.getElem?_set]
+  split
+  · subst_vars; simp [hl]
+  · rfl
+
+def swapIdx (i j l : Nat) : Nat := if l = j then i else if l = i then j else l
+
+theorem swapAxes_getD (i j : Nat) (a : Coord) (hi : i < a.length) (hj : j < a.length)
+    (l : Nat) (hl : l < a.length) :
+    (swapAxes i j a).getD l 0 = a.getD (swapIdx i j l) 0 := by
+  simp only [swapAxes, swapIdx, List.getD_eq_getElem?_getD, List.getElem?_set, List.length_set]
+  by_cases h1 : l = j
+  · subst h1; simp [hl]
+  · by_cases h2 : l = i
+    · subst h2; simp [h1, hl, Ne.symm h1]
+    · simp [h1, h2, Ne.symm h1, Ne.symm h2]
+
+/-! ### face adjacency is "squared distance 1" -/
+
+theorem sum_sq_small (l : List Nat) :
+    (l.sum = 0 ↔ (l.map (fun d => d * d)).sum = 0) ∧ (l.sum = 1 ↔ (l.map (fun d => d * d)).sum = 1) := by
+  induction l with
+  | nil => simp
+  | cons d ds ih =>
+    simp only [List.sum_cons, List.map_cons]
+    have hd : d = 0 ∨ d = 1 ∨ 2 ≤ d := by omega
+    rcases hd with rfl | rfl | hd
+    · simpa using ih
+    · have := ih.1
+      constructor <;> omega
+    · have : d ≤ d * d := Nat.le_mul_self d
+      constructor <;> omega
+
+theorem faceAdj_eq_sqDist (a b : Coord) :
+    faceAdj a b = (a.length == b.length && sqDist a b == 1) := by
+  simp only [faceAdj, sqDist, ← List.sum_eq_foldl_nat]
+  congr 1
+  rw [Bool.eq_iff_iff]
+  simpa using (sum_sq_small (absDiffs a b)).2
+
+/-! ### bounding box -/
+
+theorem foldl_min_le (xs : List Nat) (x : Nat) :
+    xs.foldl min x ≤ x ∧ ∀ v ∈ xs, xs.foldl min x ≤ v := by
+  induction xs generalizing x with
+  | nil => simp
+  | cons y ys ih =>
+    simp only [List.foldl_cons, List.mem_cons]
+    have h := ih (min x y)
+    refine ⟨by omega, ?_⟩
+    rintro v (rfl | hv)
+    · omega
+    · exact h.2 v hv
+
+theorem minOf_le_mem (vs : List Nat) (v : Nat) (h : v ∈ vs) : minOf vs ≤ v := by
+  cases vs with
+  | nil => cases h
+  | cons x xs =>
+    simp only [minOf]
+    rcases List.mem_cons.1 h with rfl | h
+    · exact (foldl_min_le xs v).1
+    · exact (foldl_min_le xs x).2 v h
+
+theorem crop_foldl_max_ge (xs : List Nat) (x : Nat) :
+    x ≤ xs.foldl max x ∧ ∀ v ∈ xs, v ≤ xs.foldl max x := by
+  induction xs generalizing x with
+  | nil => simp
+  | cons y ys ih =>
+    simp only [List.foldl_cons, List.mem_cons]
+    have h := ih (max x y)
+    refine ⟨by omega, ?_⟩
+    rintro v (rfl | hv)
+    · omega
+    · exact h.2 v hv
+
+theorem mem_le_maxOf (vs : List Nat) (v : Nat) (h : v ∈ vs) : v ≤ maxOf vs :=
+  (crop_foldl_max_ge vs 0).2 v h
+
+theorem clip_bbox_length (shape : List Nat) (sup : List Coord) (pad : Nat) :
+    ((bboxNd shape sup pad).clip shape).length = shape.length := by
+  simp [Box.clip, bboxNd]
+
+theorem clip_bbox_getElem (shape : List Nat) (sup : List Coord) (pad : Nat) (i : Nat)
+    (hi : i < ((bboxNd shape sup pad).clip shape).length) (hi' : i < shape.length) :
+    ((bboxNd shape sup pad).clip shape)[i] =
+      (min (minOf (axisVals sup i) - pad) shape[i],
+       min (min (maxOf (axisVals sup i) + pad) shape[i] + 1) shape[i]) := by
+  simp [Box.clip, bboxNd, List.getD_eq_getElem?_getD, hi']
+
+/-! ### raster coordinates of a box -/
+
+theorem filter_range_Ico (lo hi n : Nat) (h1 : lo ≤ hi) (h2 : hi ≤ n) :
+    (List.range n).filter (fun i => decide (lo ≤ i) && decide (i < hi)) =
+      (List.range (hi - lo)).map (fun i => lo + i) := by
+  have hn : n = lo + ((hi - lo) + (n - hi)) := by omega
+  rw [hn, List.range_add, List.range_add]
+  have e1 : (List.range lo).filter (fun i => decide (lo ≤ i) && decide (i < hi)) = [] := by
+    rw [List.filter_eq_nil_iff]
+    intro a ha
+    have := List.mem_range.1 ha
+    simp; omega
+  have e3 : ((List.map (fun x => hi - lo + x) (List.range (n - hi))).map (fun x => lo + x)).filter
+      (fun i => decide (lo ≤ i) && decide (i < hi)) = [] := by
+    rw [List.filter_eq_nil_iff]
+    intro a ha
+    simp only [List.map_map, List.mem_map, Function.comp] at ha
+    obtain ⟨x, _, rfl⟩ := ha
+    simp; omega
+  have e2 : ((List.range (hi - lo)).map (fun x => lo + x)).filter
+      (fun i => decide (lo ≤ i) && decide (i < hi)) = (List.range (hi - lo)).map (fun x => lo + x) := by
+    rw [List.filter_eq_self]
+    intro a ha
+    simp only [List.mem_map] at ha
+    obtain ⟨x, hx, rfl⟩ := ha
+    have := List.mem_range.1 hx
+    simp; omega
+  rw [List.map_append, List.filter_append, List.filter_append, e1, e2, e3]
+  simp
+
+theorem flatMap_filter_ite {α β : Type} (p : α → Bool) (g : α → List β) (l : List α) :
+    l.flatMap (fun i => if p i then g i else []) = (l.filter p).flatMap g := by
+  induction l with
+  | nil => rfl
+  | cons x xs ih =>
+    simp only [List.flatMap_cons, List.filter_cons, ih]
+    split <;> simp
+
+theorem inBox_cons (lo hi : Nat) (b : Box) (x : Int) (c : Coord) :
+    inBox ((lo, hi) :: b) (x :: c) = ((decide ((lo : Int) ≤ x) && decide (x < (hi : Int))) && inBox b c) := by
+  simp [inBox]
+
+theorem allCoords_box_aux (shape : List Nat) (b : Box) (hlen : b.length = shape.length)
+    (hin : ∀ p ∈ b.zip shape, p.1.1 ≤ p.1.2 ∧ p.1.2 ≤ p.2) :
+    (allCoords shape).filter (inBox b) =
+      (allCoords (b.map (fun p => p.2 - p.1))).map (translate (b.map (fun p => (p.1 : Int)))) := by
+  induction shape generalizing b with
+  | nil =>
+    cases b with
+    | nil => simp [allCoords, inBox, translate]
+    | cons _ _ => simp at hlen
+  | cons n rest ih =>
+    cases b with
+    | nil => simp at hlen
+    | cons q b' =>
+      obtain ⟨lo, hi⟩ := q
+      have hq := hin ((lo, hi), n) (by simp)
+      have ih' := ih b' (by simpa using hlen) (by
+        intro p hp
+        exact hin p (by simp [hp]))
+      simp only at hq
+      simp only [allCoords, List.map_cons, List.filter_flatMap, List.filter_map, List.map_flatMap,
+        List.map_map]
+      have hfun : ∀ i : Nat, (List.filter (inBox ((lo, hi) :: b') ∘ fun c => Int.ofNat i :: c) (allCoords rest)) =
+          if (decide (lo ≤ i) && decide (i < hi)) then (allCoords rest).filter (inBox b') else [] := by
+        intro i
+        split
+        · rename_i h
+          apply List.filter_congr
+          intro c _
+          simp only [Function.comp, inBox_cons]
+          simp only [Bool.and_eq_true, decide_eq_true_eq] at h
+          simp [h.1, h.2]
+        · rename_i h
+          rw [List.filter_eq_nil_iff]
+          intro c _
+          simp only [Function.comp, inBox_cons]
+          simp only [Bool.and_eq_true, decide_eq_true_eq] at h
+          have : ¬ (((lo : Int) ≤ Int.ofNat i) ∧ (Int.ofNat i < (hi : Int))) := by
+            simp; omega
+          simp; omega
+      simp only [hfun]
+      have hite : ∀ i : Nat, List.map (fun c => Int.ofNat i :: c)
+            (if (decide (lo ≤ i) && decide (i < hi)) = true then List.filter (inBox b') (allCoords rest) else []) =
+          if (decide (lo ≤ i) && decide (i < hi)) = true then
+            List.map (fun c => Int.ofNat i :: c) (List.filter (inBox b') (allCoords rest)) else [] := by
+        intro i; split <;> rfl
+      simp only [hite]
+      rw [flatMap_filter_ite (fun i => decide (lo ≤ i) && decide (i < hi)), filter_range_Ico lo hi n hq.1 hq.2,
+        List.flatMap_map, ih']
+      congr 1
+      funext i
+      simp [translate, Function.comp]
+
+/-! ### crop -/
+
+theorem foldl_mul_init (s : List Nat) (k : Nat) : s.foldl (· * ·) k = k * s.foldl (· * ·) 1 := by
+  induction s generalizing k with
+  | nil => simp
+  | cons n rest ih =>
+    simp only [List.foldl_cons]
+    rw [ih (k * n), ih (1 * n)]
+    simp [Nat.mul_assoc]
+
+theorem length_flatMap_const {α β : Type} (l : List α) (f : α → List β) (m : Nat)
+    (h : ∀ a, (f a).length = m) : (l.flatMap f).length = l.length * m := by
+  induction l with
+  | nil => simp
+  | cons x xs ih => simp [List.flatMap_cons, ih, h, Nat.succ_mul, Nat.add_comm]
+
+theorem allCoords_length (s : List Nat) : (allCoords s).length = shapeSize s := by
+  induction s with
+  | nil => simp [allCoords, shapeSize]
+  | cons n rest ih =>
+    simp only [allCoords, shapeSize, List.foldl_cons] at ih ⊢
+    rw [length_flatMap_const _ _ (allCoords rest).length (by intro a; simp), foldl_mul_init, ih]
+    simp
+
+theorem clip_eq_self (b : Box) (shape : List Nat)
+    (hin : ∀ p ∈ b.zip shape, p.1.1 ≤ p.1.2 ∧ p.1.2 ≤ p.2) (hlen : b.length = shape.length) :
+    b.clip shape = b := by
+  induction b generalizing shape with
+  | nil => simp [Box.clip]
+  | cons q b' ih =>
+    cases shape with
+    | nil => simp at hlen
+    | cons n rest =>
+      have hq := hin (q, n) (by simp)
+      have ih' := ih rest (fun p hp => hin p (by simp [hp])) (by simpa using hlen)
+      simp only [Box.clip] at ih' ⊢
+      simp only [List.zip_cons_cons, List.map_cons, ih']
+      simp only at hq
+      rw [Nat.min_eq_left (by omega), Nat.min_eq_left hq.2]
+
+theorem zip_map_fst_snd {α β : Type} (l : List (α × β)) : (l.map (·.1)).zip (l.map (·.2)) = l := by
+  induction l with
+  | nil => rfl
+  | cons x xs ih => simp [ih]
+
+theorem crop_fg_aux (a : Arr) (b : Box) (hdata : a.data.length = shapeSize a.shape)
+    (hlen : b.length = a.shape.length)
+    (hin : ∀ p ∈ b.zip a.shape, p.1.1 ≤ p.1.2 ∧ p.1.2 ≤ p.2)
+    (hfg : ∀ v ∈ a.fg, inBox b v.1 = true) :
+    (a.crop b).fg.map (fun v => (translate (b.map (fun p => (p.1 : Int))) v.1, v.2)) = a.fg := by
+  have hfst : a.voxels.map (·.1) = allCoords a.shape := by
+    unfold Arr.voxels
+    rw [List.map_fst_zip]
+    rw [allCoords_length, hdata]; exact Nat.le_refl _
+  have hVB : ((a.voxels.filter (fun v => inBox b v.1)).map (·.1)) =
+      (allCoords (b.map (fun p => p.2 - p.1))).map (translate (b.map (fun p => (p.1 : Int)))) := by
+    rw [← allCoords_box_aux a.shape b hlen hin, ← hfst, List.filter_map]
+    rfl
+  simp only [Arr.fg, Arr.crop, clip_eq_self b a.shape hin hlen] at hfg ⊢
+  generalize a.voxels = V at hVB hfg ⊢
+  simp only [Arr.voxels]
+  have hmf : ∀ (F : Coord × Lab → Coord × Lab) (hF : ∀ v, (F v).2 = v.2) (L : List (Coord × Lab)),
+      (L.filter (fun v => v.2 != 0)).map F = (L.map F).filter (fun v => v.2 != 0) := by
+    intro F hF L
+    rw [List.filter_map]
+    congr 1
+    apply List.filter_congr
+    intro v _
+    simp [Function.comp, hF]
+  have : (fun v : Coord × Lab => (translate (List.map (fun p => (p.1 : Int)) b) v.1, v.2)) =
+      Prod.map (translate (List.map (fun p => (p.1 : Int)) b)) id := by
+    funext v; rfl
+  rw [this, hmf (Prod.map (translate (List.map (fun p => (p.1 : Int)) b)) id) (fun _ => rfl), ← List.zip_map_left, ← hVB, zip_map_fst_snd, List.filter_filter]
+  apply List.filter_congr
+  intro v hv
+  by_cases h0 : v.2 = 0
+  · simp [h0]
+  · have := hfg v (by simp [hv, h0])
+    simp [this]
+
 end Panoptica
